@@ -75,11 +75,7 @@ impl DivSpecImpl<&BigUint> for &BigUint {
 }
 impl Div<&BigUint> for &BigUint {
     type Output = BigUint;
-    //@ assume BigUint:Div<&BigUint>for&BigUint(u_int) : proved in unit u_divapi (label div_ref_ref) against div_rem_ref
-    #[verifier::external_body]
-    fn div(self, other: &BigUint) -> (r: BigUint)
-        ensures mp() ==> other.v() != 0, r.wf(), exists|m: nat| udiv_ok(self.v(), other.v(), r.v(), m)
-    { unimplemented!() }
+//@ stub u_divapi/div_ref_ref
 }
 impl RemSpecImpl<&BigUint> for &BigUint {
     open spec fn obeys_rem_spec() -> bool { false }
@@ -88,11 +84,7 @@ impl RemSpecImpl<&BigUint> for &BigUint {
 }
 impl Rem<&BigUint> for &BigUint {
     type Output = BigUint;
-    //@ assume BigUint:Rem<&BigUint>for&BigUint(u_int) : leaf with a to_u32 fast path (src/biguint/division.rs), unit pending
-    #[verifier::external_body]
-    fn rem(self, other: &BigUint) -> (r: BigUint)
-        ensures mp() ==> other.v() != 0, r.wf(), exists|q: nat| udiv_ok(self.v(), other.v(), q, r.v())
-    { unimplemented!() }
+//@ stub u_divscalar/rem_ref_ref
 }
 impl MulSpecImpl<&BigUint> for BigUint {
     open spec fn obeys_mul_spec() -> bool { false }
